@@ -172,12 +172,18 @@ func Upgrade() error {
 // current (first) Instance and returns both of them.
 func getCurrentCasketfile() (Input, *Instance, error) {
 	instancesMu.Lock()
-	if len(instances) == 0 {
-		instancesMu.Unlock()
+	var inst *Instance
+	for _, other := range instances {
+		// (an instance is in the list from the moment its start begins)
+		if other.running {
+			inst = other
+			break
+		}
+	}
+	instancesMu.Unlock()
+	if inst == nil {
 		return nil, nil, fmt.Errorf("no server instances are fully running")
 	}
-	inst := instances[0]
-	instancesMu.Unlock()
 
 	currentCasketfile := inst.casketfileInput
 	if currentCasketfile == nil {
